@@ -68,6 +68,8 @@ def display(v):
         return "nil"
     if k == "vec":
         return "[" + ", ".join(display(e) for e in v[1]) + "]"
+    if k == "tuple":
+        return "(" + ", ".join(display(e) for e in v[1]) + ("," if len(v[1]) == 1 else "") + ")"
     if k == "range":
         return "Range(%d, %d)" % (v[1], v[2])
     raise ValueError(k)
@@ -105,7 +107,7 @@ def equal(a, b):
         return False
     if a[0] == "num":
         return a[1] == b[1]
-    if a[0] == "vec":
+    if a[0] in ("vec", "tuple"):
         return len(a[1]) == len(b[1]) and all(equal(x, y) for x, y in zip(a[1], b[1]))
     if a[0] == "range":
         return a is b        # ranges compare by identity (distinct objects unless literally the same one)
@@ -213,6 +215,8 @@ def lit_src(v):
         return '"' + v[1].replace("\\", "\\\\").replace('"', '\\"').replace("$", "\\$") + '"', 13
     if k == "vec":
         return "[" + ", ".join(lit_src(e)[0] for e in v[1]) + "]", 13
+    if k == "tuple":
+        return "(" + ", ".join(lit_src(e)[0] for e in v[1]) + ("," if len(v[1]) == 1 else "") + ")", 13
     return display(v), 13
 
 
